@@ -46,6 +46,7 @@ MachineStep(e) ==
       [] e.op = "neg" -> Neg(e.d)
       [] e.op = "sum" -> Sum(e.d, e.ss)
       [] e.op = "mul" -> Mul(e.d, e.k, e.alg)
+      [] e.op = "msm" -> MsmLin(e.d, e.s, e.as, e.ks, e.alg)
       [] e.op \in {"eq", "is_zero", "on_curve", "in_subgroup"} -> Query(e.op, e.d, e.s)
       [] e.op = "clear_cofactor" -> IF "heff_rel" \in DOMAIN Hdr THEN ClearCofactorRel(e.d, Abs(e.w[1][2])) ELSE ClearCofactor(e.d, HEFF)
       [] e.op = "mul_by_cofactor" -> MulByCofactor(e.d)
@@ -71,7 +72,7 @@ Cmp == /\ phase = "cmp"
               bad == Mismatches(e)
           IN  IF bad = {} /\ ~RetBad(e)
               THEN UNCHANGED <<regs, nbad>>
-              ELSE /\ PrintT(<<"MISMATCH", ToJson([line |-> l, event |-> [e EXCEPT !.w = <<>>], spec_ev |-> ev,
+              ELSE /\ PrintT(<<"MISMATCH", ToJson([line |-> l, event |-> [f \in (DOMAIN e) \ {"w", "as", "ks"} |-> e[f]], spec_ev |-> ev,
                                    bad_regs |-> [i \in bad |-> e.w[i][1]],
                                    spec_regs |-> [i \in bad |-> regs[e.w[i][1]]],
                                    got |-> [i \in bad |-> IF RawOK(e.w[i][2]) THEN Abs(e.w[i][2]) ELSE <<"representation invariant broken">>]])>>)
